@@ -225,7 +225,8 @@ def flip(data, bit):
 
 FAULTS = ["none", "bitflip-header", "bitflip-payload", "bitflip-signature", "signature-truncate", "signature-extend",
           "signature-reencode", "splice", "splice-other-key", "structural", "key-substitution", "caller-payload", "respell-header",
-          "right-key-other-scheme"]
+          "right-key-other-scheme", "payload-other-normal-form"]
+PAYLOAD_UNICODE = "caf\u00e9 \u00c5ngstr\u00f6m \ud55c".encode("utf-8")       # precomposed (NFC) text; its NFD spelling has other octets
 
 
 def apply_fault(ctx, tok, kind, fault, alg, path, placement, stride=1, tag=""):
@@ -309,6 +310,15 @@ def apply_fault(ctx, tok, kind, fault, alg, path, placement, stride=1, tag=""):
             return None
         m["sig"] = new
         return f"signature #{m_idx} re-encoded {name}", None
+    if fault == "payload-other-normal-form":
+        # the same text to a reader, other octets to a signature: the payload re-spelled in another Unicode normalisation form
+        import unicodedata
+        form = ctx.choose(tag + "normal_form", ["NFD", "NFKD"])
+        new = unicodedata.normalize(form, tok.payload.decode("utf-8")).encode("utf-8")
+        if new == tok.payload:
+            return None
+        tok.payload = new
+        return f"payload re-spelled in {form} (same text, other octets)", None
     if fault == "right-key-other-scheme":
         # a signature made by the holder of the right key, over the right signing input, but not with the algorithm the header names
         from cryptography.hazmat.primitives import hashes
@@ -496,10 +506,12 @@ def h_faults(ctx):
     path = ctx.choose("path", PATHS)
     placement = ctx.choose("alg_placement", ["protected", "unprotected"] if path in JSON_PATHS else ["protected"])
     payload = PAYLOAD_JSON if not path.startswith("7797") else PAYLOAD_7797
+    fault = ctx.deviate("fault", FAULTS)
+    if fault == "payload-other-normal-form":
+        payload = PAYLOAD_UNICODE
     base = make_base(alg, kind, path, placement, payload)
     signed_payload = payload
     signed_prot = [json.loads(m["protected"]) if m["protected"] is not None else {} for m in base.members]
-    fault = ctx.deviate("fault", FAULTS)
     tok = base.clone()
     desc, key_override = "unfaulted", None
     fam = alg[:2] if alg != "EdDSA" else alg
@@ -520,6 +532,9 @@ def h_faults(ctx):
     if fault != "none" and wire == base.wire() and key_override is None and tok.caller_payload is None:
         return Outcome("fault-is-identity", [], nontrivial=None)
     key = key_override if key_override is not None else verify_key(kind, path)
+    if fault == "none" and path not in GENERAL and ctx.choose("verifier_holds", ["a key", "a one-key set"]) == "a one-key set":
+        from joserfc.jwk import KeySet
+        key = KeySet([key])       # a token without kid against a set of one: verified, and returned as it was signed
     vs = []
     buckets = []
     caller_payload = tok.caller_payload
